@@ -341,24 +341,24 @@ theorem hstep_inv (st : HState) (op : HOp) (hi : Inv st) (hs : seqOk st op = tru
         have h2 := ((C03.mem_executable st.m ks p.2).1 hb).2
         simp [h1, canExec] at h2
       · intro k hk; rw [hkeep _ (Or.inr hk)]; exact hk
-  | outcome id ok f =>
+  | outcome id grp ok f =>
     have hfree := hi.free
     simp only [hstep, hfree, Bool.false_eq_true, if_false]
-    have hl := storeStatus_lookup ⟨st.m, f⟩ (keysOf st id) (if ok then .executed else .failed)
-    have hkeys : ∀ j, j ∈ keysOf st id → ∃ p ∈ st.inflight, p.1 = id ∧ p.2 = j := by
+    have hl := storeStatus_lookup ⟨st.m, f⟩ (keysOf st id grp) (if ok then .executed else .failed)
+    have hkeys : ∀ j, j ∈ keysOf st id grp → ∃ p ∈ st.inflight, inGroup id grp p = true ∧ p.2 = j := by
       intro j hj
-      simp only [keysOf, List.mem_map, List.mem_filter, decide_eq_true_eq] at hj
+      simp only [keysOf, List.mem_map, List.mem_filter] at hj
       obtain ⟨p, ⟨hp, hid⟩, rfl⟩ := hj
       exact ⟨p, hp, hid, rfl⟩
     refine ⟨⟨?_, ?_, rfl⟩, ?_⟩
     · intro p hp
-      simp only [List.mem_filter, decide_eq_true_eq] at hp
+      simp only [List.mem_filter, Bool.not_eq_true'] at hp
       rcases hl p.2 with h | ⟨h1, _⟩
       · rw [h]; exact hi.pend p hp.1
       · obtain ⟨q, hq, hqid, hq2⟩ := hkeys _ h1
         have := nodup_map_snd_inj _ hi.nodup q p hq hp.1 hq2
         subst this
-        exact absurd hqid hp.2
+        rw [hqid] at hp; cases hp.2
     · exact hi.nodup.sublist ((List.filter_sublist).map _)
     · intro k hk
       rcases hl k with h | ⟨h1, _⟩
@@ -366,7 +366,7 @@ theorem hstep_inv (st : HState) (op : HOp) (hi : Inv st) (hs : seqOk st op = tru
       · obtain ⟨q, hq, _, hq2⟩ := hkeys _ h1
         have := hi.pend q hq
         rw [hq2, hk] at this; cases this
-  | lost id =>
+  | lost id grp =>
     simp only [hstep]
     refine ⟨⟨?_, ?_, hi.free⟩, fun k hk => hk⟩
     · intro p hp
@@ -571,8 +571,8 @@ theorem hstep_stepOk (st : HState) (op : HOp) (n : Nat) : stepOk op st.m (hstep 
         rcases hp with h | ⟨h1, h2⟩
         · simp [h]
         · simp [h1, h2])
-  | outcome id ok f => simp
-  | lost id =>
+  | outcome id grp ok f => simp
+  | lost id grp =>
     simp only [hstep]
     by_cases h : lookup st.m k = Status.executed <;> simp [h]
   | retry ds res dest f =>
@@ -599,11 +599,11 @@ theorem executed_final_unless_own_outcome (st : HState) (ops : List HOp) (k : Na
     simp only [noLaterOutcome, Bool.and_eq_true, Bool.not_eq_true'] at hn
     apply ih _ _ hn.2
     cases op with
-    | outcome id ok f =>
+    | outcome id grp ok f =>
       by_cases hh : st.held = true
       · simpa [hstep, hh] using hk
       · simp only [hstep, hh, Bool.false_eq_true, if_false]
-        rcases storeStatus_lookup ⟨st.m, f⟩ (keysOf st id) (if ok then .executed else .failed) k with h | ⟨h, _⟩
+        rcases storeStatus_lookup ⟨st.m, f⟩ (keysOf st id grp) (if ok then .executed else .failed) k with h | ⟨h, _⟩
         · rw [h]; exact hk
         · have := hn.1
           simp [touches, h] at this
@@ -613,7 +613,7 @@ theorem executed_final_unless_own_outcome (st : HState) (ops : List HOp) (k : Na
       have := h k (by simp)
       simp [hk, canExec] at this
       exact this
-    | lost id => simpa [hstep] using hk
+    | lost id grp => simpa [hstep] using hk
     | retry ds res dest f =>
       have h := hstep_stepOk st (.retry ds res dest f) (k + 1)
       simp only [stepOk, List.all_eq_true] at h
@@ -624,7 +624,7 @@ theorem executed_final_unless_own_outcome (st : HState) (ops : List HOp) (k : Na
 /-- the five-step history of a stale session (C03-c1's scenario) keeps the record executed -/
 example :
     let d : Dep := ⟨2, 97, 0, 0⟩
-    let ops := [HOp.deliver [0] [], .retry [d] 97 2 [], .deliver [0] [], .outcome 1 true [], .lost 0,
+    let ops := [HOp.deliver [0] [], .retry [d] 97 2 [], .deliver [0] [], .outcome 1 [0] true [], .lost 0 [0],
                 .retry [d] 97 2 [], .deliver [0] []]
     ((hrun true init ops).map fun (x : HRes × HState) => lookup x.2.m 0) =
       [Status.pending, .failed, .pending, .executed, .executed, .executed, .executed] ∧
@@ -722,7 +722,7 @@ theorem executed_final_from_start (ops : List HOp) (hs : seqRun true init ops = 
     `executed` record is overwritten with `failed` -/
 theorem overlap_hazard :
     let d : Dep := ⟨2, 97, 1, 0⟩
-    let ops := [HOp.deliver [1] [], .retry [d] 97 2 [], .deliver [1] [], .outcome 0 true [], .outcome 1 false []]
+    let ops := [HOp.deliver [1] [], .retry [d] 97 2 [], .deliver [1] [], .outcome 0 [1] true [], .outcome 1 [1] false []]
     seqRun true init ops = false ∧
     ((hrun true init ops).map fun x => lookup x.2.m 1) = [.pending, .failed, .pending, .executed, .failed] := by
   decide
@@ -740,8 +740,8 @@ theorem mutex_free (st : HState) (ops : List HOp) (hf : st.held = false) :
         simp only [hstep, hf, Bool.false_eq_true, if_false]
         rcases forExec ⟨st.m, f⟩ ks with ⟨o, s'⟩
         cases o <;> simp [hf]
-      | outcome id ok f => simp [hstep, hf]
-      | lost id => simp [hstep, hf]
+      | outcome id grp ok f => simp [hstep, hf]
+      | lost id grp => simp [hstep, hf]
       | retry ds res dest f => simp [hstep, hf]
     obtain ⟨h1, h2⟩ := ih _ hstep'.1
     refine ⟨h1, ?_⟩
@@ -767,8 +767,8 @@ example :
     (filterDeposits 1 2 ⟨m, [false, false, true]⟩ ds).1.map (·.idx) = [0] := by decide
 
 example :
-    let ops := [HOp.deliver [0, 1] [], .outcome 0 true [], .retry [⟨2, 97, 0, 0⟩, ⟨2, 97, 1, 1⟩] 97 2 [],
-                .deliver [0, 1, 2] [], .lost 1, .retry [⟨2, 97, 2, 0⟩] 97 2 [], .deliver [2] [false, true], .deliver [2] []]
+    let ops := [HOp.deliver [0, 1] [], .outcome 0 [0, 1] true [], .retry [⟨2, 97, 0, 0⟩, ⟨2, 97, 1, 1⟩] 97 2 [],
+                .deliver [0, 1, 2] [], .lost 1 [2], .retry [⟨2, 97, 2, 0⟩] 97 2 [], .deliver [2] [false, true], .deliver [2] []]
     seqRun true init ops = true ∧
     ((hrun true init ops).map fun (x : HRes × HState) => lookup x.2.m 0) =
       [Status.pending, .executed, .executed, .executed, .executed, .executed, .executed, .executed] ∧
